@@ -212,7 +212,15 @@ func (env *SpecEnv) ident(name string) (SpecVal, error) {
 			// lets name entry values: evaluated in the pre-state
 			saved := x.st
 			if env.old != nil {
-				x.st = env.old.clone()
+				o := env.old.clone()
+				// entry heap and ghost state, but the function's own local cells keep
+				// their current values (a captured parameter lives in such a cell)
+				for k, v := range saved {
+					if strings.HasPrefix(k, "cell.") {
+						o[k] = v
+					}
+				}
+				x.st = o
 			}
 			env.letDepth++
 			v, err := env.ev(l.E)
@@ -527,7 +535,15 @@ func (env *SpecEnv) call(e *SExpr) (SpecVal, error) {
 		}
 		saved := x.st
 		if env.old != nil {
-			x.st = env.old.clone()
+			o := env.old.clone()
+			// old() is about the heap and the ghost state at entry; the function's own
+			// local variables keep their current values (they do not exist at entry)
+			for k, v := range saved {
+				if strings.HasPrefix(k, "cell.") {
+					o[k] = v
+				}
+			}
+			x.st = o
 		}
 		v, err := env.ev(e.Args[0])
 		var r SpecVal
